@@ -66,6 +66,7 @@ import Y0.Lemmas.CfIdcStar
 import Y0.Lemmas.CfIdcTerm
 import Y0.Lemmas.CfIdcFrag
 import Y0.Lemmas.CfIdcExch
+import Y0.Lemmas.CfIdcTermC
 import Y0.Props.C07
 
 namespace Y0.Cf
@@ -193,6 +194,49 @@ theorem idcstar_fuel_irrelevant (hk : SubsetOrder kordf) (outcomes conditions : 
     (idcStarO ordf dordf kordf G fuel outcomes conditions).isSome = true := by
   obtain ⟨r, hr, _⟩ := idcstar_own_recursion_terminates ordf dordf kordf G hk outcomes conditions hC hdis fuel hfuel
   rw [hr]; rfl
+
+/-! ## 2b'. termination when outcomes and conditions are copies of the same variables -/
+
+theorem idcInv_of_B {O C : Event} (h : idcInvB G O C = true) : IdcInv G O C := by
+  simp only [idcInvB, Bool.and_eq_true, decide_eq_true_eq, List.all_eq_true, Bool.not_eq_true'] at h
+  obtain ⟨⟨h1, h2⟩, h3⟩ := h
+  have hkey : ∀ k, k ∈ O.keys ∨ k ∈ C.keys → ∃ p ∈ O ++ C, p.1 = k := by
+    rintro k (hk | hk)
+    · obtain ⟨p, hp, rfl⟩ := (mem_keys_iff' _ _).1 hk
+      exact ⟨p, by simp [hp], rfl⟩
+    · obtain ⟨p, hp, rfl⟩ := (mem_keys_iff' _ _).1 hk
+      exact ⟨p, by simp [hp], rfl⟩
+  refine ⟨h1, h2, fun p hp => (h3 p (by simp [hp])).1.1.1.1.1, fun p hp => (h3 p (by simp [hp])).1.1.1.1.1, ?_, ?_⟩
+  · intro k hk
+    obtain ⟨p, hp, rfl⟩ := hkey k hk
+    obtain ⟨⟨⟨⟨⟨_, hs⟩, hi⟩, hg⟩, hc⟩, _⟩ := h3 p hp
+    exact ⟨hs, hi, hg, fun i hi' j hj hn => hc i hi' j hj hn⟩
+  · intro k hk
+    obtain ⟨p, hp, rfl⟩ := hkey k hk
+    exact (h3 p hp).2
+
+/-- **IDC\*'s own recursion terminates also when outcomes and conditions are copies of the same variables** (e.g. `Y_x` and
+`Y_{x'}`, `Y` and `Y_x`): for every well-formed loop-free graph, every pair of dicts of well-formed keys none of which is
+self-intervened (`IdcInv`; decidable: `idcInvB`), and all iteration orders, some amount of fuel `N` is enough and every larger fuel gives the same un-exhausted run.
+Measure (lexicographic): (number of variable names among the outcomes, number of conditions named like no outcome).  The
+re-association can ADD conditions here (keys that it puts into both dicts), but only conditions named like an outcome, and rule 2
+never accepts such a condition: copies of one variable in different worlds share their noise, so they are adjacent in the
+counterfactual graph (`cg_dop`) and adjacent nodes are not d-separated (`rule2_name_free`); names never migrate between the two
+sides; for the other names the counterfactual graph construction never increases the number of keys.  No explicit bound is
+claimed: the number of conditions named like outcomes can grow while those names are blocked. -/
+theorem idcstar_terminates_shared_names (hk : SubsetOrder kordf) (hord : PermOrder ordf) (hG : G.WF)
+    (hdl : ∀ e ∈ G.di, e.1 ≠ e.2) (hbl : ∀ e ∈ G.bi, e.1 ≠ e.2) (outcomes conditions : Event)
+    (hinv : IdcInv G outcomes conditions) :
+    ∃ N, ∀ fuel, N ≤ fuel → ∃ r, idcStarO ordf dordf kordf G fuel outcomes conditions = some r ∧
+      idcStarFuel ordf dordf kordf G fuel outcomes conditions = r := by
+  obtain ⟨N, hN⟩ := idcStarO_terminates ordf dordf kordf G hk hord hG hdl hbl _ _ outcomes conditions hinv (Nat.le_refl _)
+    (fun _ => Nat.le_refl _)
+  obtain ⟨r, hr⟩ := Option.isSome_iff_exists.1 hN
+  refine ⟨N, fun fuel hfuel => ⟨r, ?_, ?_⟩⟩
+  · obtain ⟨k, rfl⟩ := Nat.exists_eq_add_of_le hfuel
+    exact idcStarO_mono_le ordf dordf kordf G N k _ _ r hr
+  · obtain ⟨k, rfl⟩ := Nat.exists_eq_add_of_le hfuel
+    rw [idcStarFuel_eq_idcStarO, idcStarO_mono_le ordf dordf kordf G N k _ _ r hr]
 
 /-! ## 2c. soundness on a named fragment -/
 
@@ -365,6 +409,14 @@ example : SubsetOrder (fun l : List Var => l) ∧
     (∀ o ∈ Event.keys [(⟨1, none, false, [⟨0, false⟩]⟩, ⟨1, false⟩)],
       ∀ c ∈ Event.keys [(⟨2, none, false, []⟩, ⟨2, false⟩)], o.name ≠ c.name) := by
   refine ⟨fun _ _ h => h, by decide, by decide⟩
+
+/-- the hypotheses of `idcstar_terminates_shared_names` are satisfiable by inputs on which a name IS shared: on `A → Y` (A=0, Y=1)
+the query `P(Y_a = y | Y = y')`, and with two worlds `P(Y_a = y, Y_{a'} = y | Y = y', A = a)` -/
+example : idcInvB (MG.fromEdges [0, 1] [(0, 1)] []) [(⟨1, none, false, [⟨0, false⟩]⟩, ⟨1, false⟩)]
+    [(Var.plain 1, ⟨1, true⟩)] = true := by decide
+example : idcInvB (MG.fromEdges [0, 1] [(0, 1)] [])
+    [(⟨1, none, false, [⟨0, false⟩]⟩, ⟨1, false⟩), (⟨1, none, false, [⟨0, true⟩]⟩, ⟨1, false⟩)]
+    [(Var.plain 1, ⟨1, true⟩), (Var.plain 0, ⟨0, false⟩)] = true := by decide
 
 /-- the fragment is not empty: `P(Y = y | X = x)` on the bow graph `X → Y`, `X ↔ Y` (X=0, Y=1; rule 2 does not apply, the
 answer is `P(X, Y) / Σ_Y P(X, Y)`), and `P(X = x | Y = y)` on `X → Y` -/
